@@ -31,6 +31,7 @@ def run(ctx):
         core.coq_property(ctx, "Properties_C01.v", KERNEL_THEOREMS)
         layers.append("runtime")
     ctx.coverage["theorem_layers_included"] = layers
+    C01.lint_obligation(ctx)
     kexe = C01.build(ctx)
     if kexe:
         kcases = C01.corpus() + C01.gen_cases(ctx, ctx.tier)
